@@ -190,8 +190,139 @@ def run(ctx):
                         if seq != exp:
                             bad = 'formats byte offsets %s, expected lanes in order %s' % (seq, exp)
                 done('R-FMT', name, bad, it)
+        nconst = check_constants(ctx, cfg, F, H)
+        ctx.floor('named constants checked (%s)' % cfg, nconst, 330)
         ctx.floor('vector/quaternion types with access paths (%s)' % cfg, len(types), FLOOR_TYPES)
         for k, v in sorted(counts.items()):
             ctx.count('%s:%s' % (k, cfg), v)
         ctx.floor('access-path instances (%s)' % cfg, sum(counts.values()), 480)
     ctx.extra['exhaustive'] = True
+
+
+import struct
+
+
+def _bits(elem, v):
+    if elem == 'f32':
+        return struct.unpack('<I', struct.pack('<f', v))[0], 4
+    if elem == 'f64':
+        return struct.unpack('<Q', struct.pack('<d', v))[0], 8
+    n = int(elem[1:])
+    return int(v) & ((1 << n) - 1), n // 8
+
+
+def _expected(name, elem, N):
+    """lane values of a named constant, or None when the name is not a lane constant"""
+    isf = elem[0] == 'f'
+    one, zero = 1, 0
+    ax = {'X': 0, 'Y': 1, 'Z': 2, 'W': 3}
+    if name == 'ZERO':
+        return [zero] * N
+    if name == 'ONE':
+        return [one] * N
+    if name == 'NEG_ONE' and elem[0] != 'u':
+        return [-1] * N
+    if name in ax and ax[name] < N:
+        return [1 if i == ax[name] else 0 for i in range(N)]
+    if name.startswith('NEG_') and name[4:] in ax and ax[name[4:]] < N and elem[0] != 'u':
+        return [-1 if i == ax[name[4:]] else 0 for i in range(N)]
+    if name == 'MIN':
+        if isf:
+            m = -3.4028234663852886e38 if elem == 'f32' else -1.7976931348623157e308
+        elif elem[0] == 'i':
+            m = -(1 << (int(elem[1:]) - 1))
+        else:
+            m = 0
+        return [m] * N
+    if name == 'MAX':
+        if isf:
+            m = 3.4028234663852886e38 if elem == 'f32' else 1.7976931348623157e308
+        elif elem[0] == 'i':
+            m = (1 << (int(elem[1:]) - 1)) - 1
+        else:
+            m = (1 << int(elem[1:])) - 1
+        return [m] * N
+    if isf and name == 'INFINITY':
+        return [float('inf')] * N
+    if isf and name == 'NEG_INFINITY':
+        return [float('-inf')] * N
+    if isf and name == 'NAN':
+        return ['nan'] * N
+    return None
+
+
+def check_constants(ctx, cfg, F, H):
+    I = H.new_interp()
+    n = 0
+    for path, k in F.konsts.items():
+        tn = k['self_ty']
+        tyid = None
+        for i, t in F.types.items():
+            if t['n'] == tn:
+                tyid = i
+                break
+        if tyid is None:
+            continue
+        vi = vec_info(F, tyid)
+        if vi is None or vi['name'].startswith('BVec'):
+            continue
+        name = k['name']
+        N, elem = vi['dim'], vi['elem']
+        quat = vi['name'] in ('Quat', 'DQuat')
+        if quat and name == 'IDENTITY':
+            exp = [0, 0, 0, 1]
+        elif quat and name in ('ZERO', 'NAN'):
+            exp = _expected(name, elem, N)
+        elif quat:
+            continue
+        else:
+            exp = _expected(name, elem, N)
+        if name == 'AXES':
+            try:
+                val = I.eval_const(k['v'])
+            except Exception as e:
+                ctx.unverifiable('R-CONST', cfg, path, 'constant not decodable: %r' % (e,))
+                continue
+            sz = F.types[tyid]['sz']
+            bad = None
+            for a in range(N):
+                for i, (off, s) in enumerate(vi['lanes']):
+                    c = val.cells.get(a * sz + off)
+                    b, _ = _bits(elem, 1 if i == a else 0)
+                    if c is None or not tm.is_const(c[1]) or tm.cbits(c[1]) != b:
+                        bad = 'AXES[%d] lane %d is not %d' % (a, i, 1 if i == a else 0)
+            n += 1
+            if bad:
+                ctx.violation('R-CONST', cfg, path, {'problem': bad})
+            else:
+                ctx.holds('R-CONST', cfg, path)
+            continue
+        if exp is None:
+            continue
+        try:
+            val = I.eval_const(k['v'])
+        except Exception as e:
+            ctx.unverifiable('R-CONST', cfg, path, 'constant not decodable: %r' % (e,))
+            continue
+        bad = None
+        for i, (off, s) in enumerate(vi['lanes']):
+            c = cell_term(val, off, s)
+            if c is None or not tm.is_const(c):
+                bad = 'lane %d is not a constant' % i
+                break
+            if exp[i] == 'nan':
+                f = tm.f_of(c)
+                if f == f:
+                    bad = 'lane %d of NAN is not a NaN' % i
+                    break
+            else:
+                b, _ = _bits(elem, float(exp[i]) if elem[0] == 'f' else exp[i])
+                if tm.cbits(c) != b:
+                    bad = 'lane %d of %s has bits 0x%x, expected %s' % (i, name, tm.cbits(c), exp[i])
+                    break
+        n += 1
+        if bad:
+            ctx.violation('R-CONST', cfg, path, {'problem': bad})
+        else:
+            ctx.holds('R-CONST', cfg, path)
+    return n
